@@ -176,6 +176,24 @@ def agg_cases(ctx, rng, n, scratch, settings):
       rules, lines = [], ['(file removed)']
       reloaded = True
       open(path, 'w').close()
+    elif k % 5 == 2:
+      # a FAULT: on one tick of the re-read task the modification time of the (present, unchanged) rules file
+      # cannot be read (EACCES / EIO / ESTALE); the ticks after it succeed again.  The file did not change: its
+      # rules stay in force - whatever the failing tick did must be healed by the following ones
+      import errno
+
+      def failing(p, _e=errno.EACCES):
+        raise OSError(_e, os.strerror(_e), p)
+      saved = (arules.getmtime, os.path.getmtime)
+      arules.getmtime = failing
+      os.path.getmtime = failing
+      try:
+        clock.advance(11)
+      finally:
+        arules.getmtime, os.path.getmtime = saved
+      clock.advance(10)
+      clock.advance(10)
+      lines = lines + ['(one failing getmtime, then two good ticks)']
     elif k % 2:
       # the rules file changes while the relay runs: the 10 s re-read task picks it up
       rules, lines = write_rules(rng, path)
